@@ -80,7 +80,7 @@ Qed.
 Definition var_cfg : xcfg :=
   {| xb := plain 0 1024 1024 PG; read_of := fun _ => 0; wp_cpu := false; wp_var := true; pmu_ok := false |}.
 Definition ov (v : N) : oval :=
-  {| o_statm := []; o_pf := []; o_cycle := []; o_cache := []; o_branch := []; o_cpu := 0%Z; o_var := v |}.
+  {| o_statm := []; o_pf := []; o_cycle := []; o_cache := []; o_branch := []; o_cpu := 0%Z; o_var := v; o_asz := None |}.
 Definition var_x0 : xpart :=
   {| xs := []; pend := []; w_inited := false; w_cpu := (-1)%Z; v_copy := Some 3; g_init := false; g_val := 0;
      xout := [] |}.
